@@ -17,8 +17,8 @@ CHECKS = {
         assumptions=["ConnectTimeout 1 s", "the broker process dying is observed as a panic escaping the connection handler goroutine (no recover there in production)"],
         units=[
             dict(name="streams", test="TestC05Streams", checks=(300, 20000), shards=(4, 14), timeout=(240, 3000)),
-            dict(name="trap", test="TestC05Trap", checks=(200, 4000), shards=(2, 8), timeout=(240, 3000)),
-            dict(name="victim", test="TestC05Victim", checks=(300, 6000), shards=(4, 14), timeout=(240, 3000)),
+            dict(name="trap", test="TestC05Trap", checks=(200, 40000), shards=(2, 8), timeout=(240, 3000)),
+            dict(name="victim", test="TestC05Victim", checks=(300, 60000), shards=(4, 14), timeout=(240, 3000)),
             dict(name="child", test="TestC05Child", kind="enum", shards=(2, 4), timeout=(240, 600)),
         ]),
 
@@ -46,8 +46,8 @@ CHECKS = {
         level_note='Trusted: harness/ref/match, harness/ref/codec (strict parsing of every received byte), the reference model in harness/p_broker/model.go, and the barrier argument (a PINGRESP proves that everything the broker did for earlier packets of that client is committed). Known finding empty-level is excluded by a variant model run in lock-step.',
         rule='rapid-generated plans; non-trivial = a request with >= 4 filters or with an invalid filter/QoS, or an unsubscribe of a held filter followed by deliveries that distinguish the outcome; distinct = FNV-64 of the plan JSON',
         assumptions=["unit sequential: 'takes effect at the ack' is judged for publishes sent after the ack was read", "unit ack-timing: the window between acknowledgement and effect is probed at the calls into the subscription store only (before/after each Subscribe/Unsubscribe call of the request), with one concurrent publisher"],
-        units=[dict(name="sequential", test="TestC07", checks=(3000, 30000), shards=(4, 14), timeout=(240, 3000)),
-               dict(name="ack-timing", test="TestC07Ack", checks=(600, 12000), shards=(4, 14), timeout=(240, 3000))]),
+        units=[dict(name="sequential", test="TestC07", checks=(6000, 600000), shards=(4, 14), timeout=(240, 3000)),
+               dict(name="ack-timing", test="TestC07Ack", checks=(1200, 120000), shards=(4, 14), timeout=(240, 3000))]),
 
     "C08": dict(
         pkg="p_broker", level="exploration",
@@ -56,8 +56,8 @@ CHECKS = {
         level_note='Trusted: harness/ref/match, harness/ref/codec (strict parsing of every received byte), the reference model in harness/p_broker/model.go, and the barrier argument (a PINGRESP proves that everything the broker did for earlier packets of that client is committed). Known finding empty-level is excluded by a variant model run in lock-step.',
         rule='rapid-generated plans; non-trivial = a subscription received retained messages in a plan that also has a retained replacement, a clear or >= 1 ring of filler; distinct = FNV-64 of the plan JSON',
         assumptions=['the retain flag of deliveries to in-process callbacks (Server.Subscribe) is not judged: the callback sees the message object as published', 'unit sequential: one request at a time', 'unit retained-concurrent: 2-3 subscribers and one updating publisher; the schedule is varied at packet-write granularity (yield writeMessage.enter), not inside the retained store'],
-        units=[dict(name="sequential", test="TestC08", checks=(3000, 25000), shards=(4, 14), timeout=(240, 3000)),
-               dict(name="retained-concurrent", test="TestC08RetConc", checks=(800, 12000), shards=(4, 14), timeout=(240, 3000))]),
+        units=[dict(name="sequential", test="TestC08", checks=(6000, 500000), shards=(4, 14), timeout=(240, 3000)),
+               dict(name="retained-concurrent", test="TestC08RetConc", checks=(1600, 300000), shards=(4, 14), timeout=(240, 3000))]),
 
     "C09": dict(
         pkg="p_broker", level="exploration",
@@ -66,7 +66,7 @@ CHECKS = {
         level_note='Trusted: harness/ref/match, harness/ref/codec (strict parsing of every received byte), the reference model in harness/p_broker/model.go, and the barrier argument (a PINGRESP proves that everything the broker did for earlier packets of that client is committed). Known finding empty-level is excluded by a variant model run in lock-step.',
         rule='rapid-generated plans; non-trivial = a will became due on a resumed session (an earlier generation of the id existed) or a held will was suppressed by DISCONNECT; distinct = FNV-64 of the plan JSON',
         assumptions=['keep-alive expiry as a cause of connection end is covered by C19', 'one live connection per client identifier'],
-        units=[dict(name="sequential", test="TestC09", checks=(3000, 15000), shards=(4, 14), timeout=(240, 3000))]),
+        units=[dict(name="sequential", test="TestC09", checks=(3000, 200000), shards=(4, 14), timeout=(240, 3000))]),
 
     "C10": dict(
         pkg="p_broker", level="exploration",
@@ -75,7 +75,7 @@ CHECKS = {
         level_note='Trusted: harness/ref/match, harness/ref/codec (strict parsing of every received byte), the reference model in harness/p_broker/model.go, and the barrier argument (a PINGRESP proves that everything the broker did for earlier packets of that client is committed). Known finding empty-level is excluded by a variant model run in lock-step.',
         rule='rapid-generated plans; non-trivial = a session was resumed that held subscriptions; distinct = FNV-64 of the plan JSON',
         assumptions=['offline queueing/redelivery is unsupported by the library (README) and not asserted', 'one live connection per client identifier: the harness waits for teardown-done before reusing an id'],
-        units=[dict(name="sequential", test="TestC10", checks=(3000, 25000), shards=(4, 14), timeout=(240, 3000))]),
+        units=[dict(name="sequential", test="TestC10", checks=(6000, 500000), shards=(4, 14), timeout=(240, 3000))]),
 
     "C11": dict(
         pkg="p_broker", level="exploration",
@@ -92,7 +92,7 @@ CHECKS = {
         assumptions=["ConnectTimeout is 1 s in the fixture", "client ids of 24-32 printable characters and inputs the 3.1-compatible decoder tolerates are accepted either way"],
         units=[
             dict(name="enum", test="TestC11Enum", kind="enum", shards=(4, 14)),
-            dict(name="random", test="TestC11Random", checks=(4000, 200000), shards=(4, 14), timeout=(240, 3000)),
+            dict(name="random", test="TestC11Random", checks=(12000, 4000000), shards=(4, 14), timeout=(240, 3000)),
         ]),
 
     "C12": dict(
@@ -107,9 +107,9 @@ CHECKS = {
         rule=("rapid-generated cases; non-trivial (client role) = a forced ack-before-registration interleaving or acks in another order than the requests; (broker role) = >= 2 QoS>0 publishes in flight to the subscriber; distinct = FNV-64 of the case JSON"),
         assumptions=["one issuing goroutine at a time in the client-role unit (forced requests run in their own goroutine)", "acks per identifier follow protocol stage order"],
         units=[
-            dict(name="client-role", test="TestC12Client", checks=(1500, 12000), shards=(4, 14), timeout=(240, 3000)),
-            dict(name="broker-role", pkg="p_broker", test="TestC12Broker", checks=(1500, 12000), shards=(4, 14), timeout=(240, 3000)),
-            dict(name="retained-concurrent", pkg="p_broker", test="TestC12RetConc", checks=(800, 12000), shards=(4, 14), timeout=(240, 3000)),
+            dict(name="client-role", test="TestC12Client", checks=(3000, 400000), shards=(4, 14), timeout=(240, 3000)),
+            dict(name="broker-role", pkg="p_broker", test="TestC12Broker", checks=(4500, 600000), shards=(4, 14), timeout=(240, 3000)),
+            dict(name="retained-concurrent", pkg="p_broker", test="TestC12RetConc", checks=(1600, 300000), shards=(4, 14), timeout=(240, 3000)),
         ]),
 
     "C13": dict(
@@ -131,7 +131,7 @@ CHECKS = {
                      "oracle is a list model written from the property statement; request/ack bytes are built by the harness, not by the library encoder"],
         units=[
             dict(name="exhaustive", test="TestExhaustive", kind="enum", shards=(4, 14), timeout=(200, 1500)),
-            dict(name="random", test="TestRandom", kind="rapid", checks=(2000, 150000), shards=(4, 14), timeout=(200, 1500)),
+            dict(name="random", test="TestRandom", kind="rapid", checks=(4000, 600000), shards=(4, 14), timeout=(200, 1500)),
         ]),
 
     "C01": dict(
@@ -145,9 +145,9 @@ CHECKS = {
                     "processor). Unit concurrent runs every client's operation list in its own goroutine and judges each (publish, client) pair with the interval oracle: a subscription is definitely held if its SUBACK was received before the PUBLISH was sent and its UNSUBSCRIBE was sent after the publisher's barrier returned, definitely not held if its UNSUBACK preceded the send or its SUBSCRIBE followed the barrier, otherwise either outcome is accepted (logical clock on the harness side). Unit in-process fixes the subscriptions (raw clients and Server.Subscribe callbacks, some of them bridges that call Server.Publish from inside the callback), then publishes from 1-3 goroutines calling Server.Publish at once and from raw clients, and compares each subscriber's deliveries (message, topic, QoS) as a multiset with the exact expectation, bridged copies included."),
         rule=("rapid-generated plans (8-40 ops); non-trivial = some publish had >= 1 recipient while >= 1 connected client was not a recipient; distinct = FNV-64 of the plan JSON"),
         assumptions=["topics and filters never start with '$'", "one live connection per client identifier", "unit sequential: exact cuts; unit in-process: subscriptions do not change while messages flow"],
-        units=[dict(name="sequential", test="TestC01", checks=(3000, 30000), shards=(4, 14), timeout=(240, 3000)),
-               dict(name="concurrent", test="TestC01Concurrent", checks=(1200, 12000), shards=(4, 14), timeout=(240, 3000)),
-               dict(name="in-process", test="TestC01Inproc", checks=(1200, 20000), shards=(4, 14), timeout=(240, 3000))]),
+        units=[dict(name="sequential", test="TestC01", checks=(6000, 400000), shards=(4, 14), timeout=(240, 3000)),
+               dict(name="concurrent", test="TestC01Concurrent", checks=(2400, 150000), shards=(4, 14), timeout=(240, 3000)),
+               dict(name="in-process", test="TestC01Inproc", checks=(3600, 200000), shards=(4, 14), timeout=(240, 3000))]),
 
     "C02": dict(
         pkg="p_broker", level="exploration",
@@ -159,8 +159,8 @@ CHECKS = {
         level_note=("Trusted: harness/ref/codec, the exact-cut argument (publisher barrier, then subscriber barrier). PUBRELs of concurrently open exchanges are sent in PUBREC order (MQTT-4.6.0-4)."),
         rule=("rapid-generated scripts (3-24 steps over ids {1,2,3,7}); non-trivial = a QoS 2 exchange with a duplicate PUBLISH or PUBREL, or with >= 1 ring of filler before its PUBREL; distinct = FNV-64 of the script JSON"),
         assumptions=["the sender releases exchanges in PUBREC order", "duplicates repeat the original content"],
-        units=[dict(name="broker-role", test="TestC02Broker", checks=(3000, 20000), shards=(4, 14), timeout=(240, 3000)),
-               dict(name="client-role", pkg="p_client", test="TestC02Client", checks=(1500, 20000), shards=(4, 14), timeout=(240, 3000))]),
+        units=[dict(name="broker-role", test="TestC02Broker", checks=(6000, 400000), shards=(4, 14), timeout=(240, 3000)),
+               dict(name="client-role", pkg="p_client", test="TestC02Client", checks=(3000, 300000), shards=(4, 14), timeout=(240, 3000))]),
 
     "C03": dict(
         pkg="p_codec", level="exploration",
@@ -175,8 +175,8 @@ CHECKS = {
               "(type, remaining length, flags, id, field lengths, content hash). unit modify: decode a generated packet, apply 1-3 setter calls, compare with the reference encoding of the changed fields (non-trivial = a setter applied). unit boundaries: enumerated table, distinct by construction. unit counter: one history per shard, non-trivial if it crossed a multiple of 65536"),
         assumptions=["strings are printable ASCII (UTF-8 validity is never decisive)", "packet-id counter is process-global; no assumption about its start value"],
         units=[
-            dict(name="fields", test="TestC03Fields", checks=(40000, 3000000), shards=(4, 14), timeout=(240, 3000)),
-            dict(name="modify", test="TestC03Modify", checks=(20000, 1500000), shards=(4, 14), timeout=(240, 3000)),
+            dict(name="fields", test="TestC03Fields", checks=(80000, 9000000), shards=(4, 14), timeout=(240, 3000)),
+            dict(name="modify", test="TestC03Modify", checks=(40000, 9000000), shards=(4, 14), timeout=(240, 3000)),
             dict(name="boundaries", test="TestC03Boundaries", kind="enum", shards=(4, 14), timeout=(240, 1200)),
             dict(name="counter", test="TestC03Counter", kind="enum", shards=(2, 14)),
             dict(name="native-fuzz", test="FuzzRoundTrip", kind="fuzz", fuzztime=(10, 120), shards=(1, 1), tiers=["thorough"], timeout=(120, 600), workers=14),
@@ -194,7 +194,7 @@ CHECKS = {
         assumptions=["'stays inside the input' is judged on [ptr, ptr+len) of each exposed slice, not on its capacity"],
         units=[
             dict(name="mutants", test="TestC04Mutants", kind="enum", shards=(4, 14)),
-            dict(name="random", test="TestC04Random", checks=(40000, 5000000), shards=(4, 14), timeout=(240, 3000)),
+            dict(name="random", test="TestC04Random", checks=(80000, 25000000), shards=(4, 14), timeout=(240, 3000)),
             dict(name="native-fuzz", test="FuzzDecode", kind="fuzz", fuzztime=(10, 180), shards=(1, 1), tiers=["thorough"], timeout=(120, 600), workers=14),
         ]),
 
@@ -209,8 +209,8 @@ CHECKS = {
                     "One case at a time per process so the census is attributable."),
         rule=("rapid-generated sequences; non-trivial = at least one connection was ended while a ring involved was full (stalled subscriber with pending deliveries or blocked publisher); distinct = FNV-64 of the sequence JSON"),
         assumptions=["a blocked delivery to a still-open stalled peer may hold a teardown up (the statement's proviso)", "wills are judged only while the server is up"],
-        units=[dict(name="faults", test="TestC16", checks=(120, 5000), shards=(4, 14), timeout=(300, 3000)),
-               dict(name="close-window", test="TestC16Window", checks=(24, 400), shards=(4, 8), timeout=(300, 3000))]),
+        units=[dict(name="faults", test="TestC16", checks=(240, 15000), shards=(4, 14), timeout=(300, 3000)),
+               dict(name="close-window", test="TestC16Window", checks=(48, 4000), shards=(4, 8), timeout=(300, 3000))]),
     "C17": dict(
         pkg="p_broker", level="exploration",
         technique="concurrent stress with rapid-generated publisher/subscriber configurations; every received byte strictly parsed; self-describing payloads with per-publisher sequence numbers",
@@ -220,8 +220,8 @@ CHECKS = {
         level_note=("Trusted: harness/ref/codec strict parser, the payload self-description. Client-role variant (library Client publishing from several goroutines) is in unit client-role when present."),
         rule=("rapid-generated configurations; non-trivial = publishers actually interleaved on a subscriber (publisher switches > 4 per subscriber) and at least one packet was written through the ring's wrap path (derived from stream offsets); distinct = FNV-64 of the configuration JSON"),
         assumptions=["each subscriber holds exactly one subscription per topic"],
-        units=[dict(name="broker-role", test="TestC17Broker", checks=(120, 3000), shards=(4, 14), timeout=(300, 3000)),
-               dict(name="client-role", pkg="p_client", test="TestC17Client", checks=(600, 12000), shards=(4, 14), timeout=(300, 3000))]),
+        units=[dict(name="broker-role", test="TestC17Broker", checks=(240, 25000), shards=(4, 14), timeout=(300, 3000)),
+               dict(name="client-role", pkg="p_client", test="TestC17Client", checks=(1200, 150000), shards=(4, 14), timeout=(300, 3000))]),
 
     "C18": dict(
         pkg="p_broker", level="exploration", race=True,
@@ -233,7 +233,7 @@ CHECKS = {
         level_note=("Trusted: the Go race detector, the report parser in c18_test.go. Reports without two library stacks are counted, not judged. Shutdown racing with live traffic is C16's concern, not asserted here."),
         rule=("rapid-generated workloads; non-trivial = at least three of {teardown during fan-out, retained update concurrent with subscriptions, in-process subscribe, concurrent Client.Connect} occurred; distinct = FNV-64 of the workload JSON"),
         assumptions=["one live connection per client identifier", "the library's process-global provider registries are touched by the harness only under its own mutex"],
-        units=[dict(name="race", test="TestC18Race", checks=(200, 4000), shards=(4, 14), timeout=(300, 3000), race_log=True, shrinktime="5s")]),
+        units=[dict(name="race", test="TestC18Race", checks=(200, 25000), shards=(4, 14), timeout=(300, 3000), race_log=True, shrinktime="5s")]),
 
     "C19": dict(
         pkg="p_broker", level="fault_enumeration",
@@ -276,9 +276,9 @@ CHECKS = {
               "ran while its peer was parked inside a wait window (pre-lock/pre-wait yield) or blocked in a wait; pingpong unit counts round trips; distinct = FNV-64 of the case JSON"),
         assumptions=["single producer and single consumer goroutine plus any number of Close callers", "quiescence is decided from goroutine states reported by runtime.Stack"],
         units=[
-            dict(name="controlled", test="TestC15Controlled", checks=(600, 60000), shards=(4, 14)),
-            dict(name="controlled-noclose", test="TestC15ControlledNoClose", checks=(200, 20000), shards=(4, 14)),
-            dict(name="free", test="TestC15Free", checks=(120, 6000), shards=(4, 14)),
+            dict(name="controlled", test="TestC15Controlled", checks=(600, 120000), shards=(4, 14)),
+            dict(name="controlled-noclose", test="TestC15ControlledNoClose", checks=(200, 40000), shards=(4, 14)),
+            dict(name="free", test="TestC15Free", checks=(120, 20000), shards=(4, 14)),
             dict(name="pingpong", test="TestC15PingPong", kind="enum", shards=(2, 8)),
             dict(name="close-windows", test="TestC15CloseWindows", kind="enum", shards=(8, 14)),
         ]),
@@ -298,7 +298,7 @@ CHECKS = {
         assumptions=["one case at a time per process (goroutine census)", "the server never delivers a topic matched only by a filter it refused with 0x80 ... it may, and then no callback is expected"],
         units=[
             dict(name="connect", test="TestC20Connect", kind="enum", shards=(2, 2), timeout=(240, 600)),
-            dict(name="dispatch", test="TestC20Dispatch", checks=(1500, 15000), shards=(4, 14), timeout=(240, 3000)),
+            dict(name="dispatch", test="TestC20Dispatch", checks=(3000, 500000), shards=(4, 14), timeout=(240, 3000)),
         ]),
 }
 
